@@ -137,6 +137,22 @@ def same(op, dr, mo, line=None):
     return True
 
 
+FIAT_TIGHT51 = (1 << 51) + (1 << 47)   # fiat-crypto's tight bound for 51-bit limbs is ~1.1 * 2^51
+
+
+def admissible(cfg, line):
+    """is this request inside the documented input contract of the backend behind `cfg`?  (fiat's field type only
+    admits tight limbs as point coordinates; the serial and vector backends admit more headroom)"""
+    if cfg.startswith("fiat") and (line.startswith("ed.mul_raw_limbs ") or ".mul_limbs " in line):
+        try:
+            for a in line.split(" ")[1:5]:
+                if any(int(x) > FIAT_TIGHT51 for x in a.split(",")):
+                    return False
+        except ValueError:
+            return True
+    return True
+
+
 def compare(reqs, outs_by_cfg, model_out):
     """returns list of mismatches (idx, cfg, driver_out, model_out) and stats"""
     mism = []
@@ -144,7 +160,7 @@ def compare(reqs, outs_by_cfg, model_out):
     for cfg, outs in outs_by_cfg.items():
         for i, (lab, line) in enumerate(reqs):
             d, m = outs[i], model_out[i]
-            if d == "skip" or m == "skip":
+            if d == "skip" or m == "skip" or not admissible(cfg, line):
                 continue
             evals += 1
             if not same(line.split(" ", 1)[0], d, m, line):
